@@ -265,3 +265,36 @@ PROPS['C04'] = {
     'assumptions': ['field arithmetic is correct (C20)'],
     'level': 'Static abstract interpretation of the field protocol coroutines; the small-field lifting clause is checked under C39.',
 }
+
+from . import rules_fx as fx
+
+PROPS['C03'] = {
+    'rules': [R(fx.rule_FX1), R(fx.rule_FX2), R(fx.rule_FX3), R(fx.rule_FX4), R(fx.rule_FX5)],
+    'floors': {'FX1': 60, 'FX2': 15, 'FX3': 15, 'FX4': 40, 'FX5': 7},
+    'explanation': 'The integral flag is a static annotation handed to returnType(); the check compares, by truth tables over the atoms of the '
+                   'flag expressions (resolved through reaching definitions, all()/list forms and local helpers), what each of the ~70 declarations '
+                   'promises with what the gathered operands guarantee: falsifying any one operand flag must falsify the declaration, with the '
+                   'tabled escape atoms (public int factor, shift >= f) false and the selector operands of if_else/if_swap exempt because their '
+                   'callers raise for non-integral conditions (FX1). A literal True requires the result to be scaled by 2^f or to be integral by '
+                   'construction (FX2). In the product coroutines the exact shift and the truncation are complementary, the exact shift is taken '
+                   'only when a factor is flagged integral, and both remove the same number of bits (FX3). Flags are only ever combined by '
+                   'conjunction (FX4). The constructors infer the flag exactly (FX5).',
+    'assumptions': ['lists passed to vector operations are homogeneous in their integral flag (API assumption stated in the code)',
+                    'callers do not overwrite .integral of results (np_exp2 sets it after an explicit truncation to integers)'],
+    'level': 'Static truth-table analysis of every integrality declaration and of every use of a flag to choose between exact shift and '
+             'truncation. This is the property static analysis fits best: the flag never depends on runtime values other than other flags. '
+             'Found one genuine defect (np_sum ignores the flag of its initial value), repaired.',
+}
+PROPS['C02'] = {
+    'rules': [R(fx.rule_FX3), R(pa.rule_SS1, scope=['mul', 'np_multiply', 'in_prod', 'prod', 'schur_prod', 'scalar_mul', 'matrix_prod', '_cpx_mul', 'np_matmul',
+                                                      'np_outer', 'np_convolve', 'gauss', 'trunc', 'np_trunc']),
+              R(pa.rule_MK2, scope=['trunc', 'np_trunc']), R(fx.rule_FX1)],
+    'floors': {'FX3': 15, 'SS1': 25, 'MK2': 2, 'FX1': 60},
+    'explanation': 'Scale clause only: every product of two scale-f values is brought back to scale f exactly once -- by the exact shift when a factor '
+                   'is flagged integral, by probabilistic truncation otherwise, removing the same number of bits on both paths (FX3); the product is '
+                   'degree-reduced before it is truncated (SS1); the truncation mask has k bits of slack above the l-bit value (MK2), which is what '
+                   'keeps the rounding error within one unit; the flags that choose the path are sound (FX1).',
+    'assumptions': ['numeric error bounds of division, sincos and powers are not decided'],
+    'level': 'Static scale/flag analysis of the fixed-point product coroutines. Decides the structural part of "within one unit": exactly one scaling '
+             'step of the right size per product. Numeric error bounds are not claimed.',
+}
